@@ -34,6 +34,9 @@ def cpsr_write_by_instr(st, value, bytemask, is_excpt_return):
     mask = mask | ite(land(b0, er), 0x00000020, 0)
     mask = mask | ite(land(b0, priv, lnot(mode_unpred)), 0x0000001F, 0)
     st['cpsr'] = (c & (mask ^ M32)) | (value & mask)
+    if 'it_state_restored' in st:
+        # implementation scratch flag: the IT bits were loaded by an exception return (execute_instruction then does not advance them)
+        st['it_state_restored'] = lor(st['it_state_restored'], land(b1, er))
     unpred = land(b0, priv, mode_unpred)
     return None, unpred, None
 
